@@ -66,6 +66,7 @@ var behaviours3161 = []behaviour{
 	{"rejection_with_token", with(func(a *attrs) { a.Status = 2 })}, // valid token but status = rejection
 	{"waiting_with_token", with(func(a *attrs) { a.Status = 3 })},
 	{"granted_with_mods", with(func(a *attrs) { a.Status = 1 })}, // acceptable per RFC 3161
+	{"status_minus1_with_token", with(func(a *attrs) { a.Status = -1 })}, // not a PKIStatus at all
 	{"trailing", with(func(a *attrs) { a.Rest = 3 })},
 	{"wrong_alg_oid", with(func(a *attrs) { a.AlgSame = false })}, // same digest bytes labelled sha3-256
 	{"granted_no_token", with(func(a *attrs) { a.HasToken = false; a.SigOK = false; a.Nonce = 0; a.Imprint = false })},
@@ -270,6 +271,8 @@ func (f *fakeTSA) rfc3161(tc *tsaCase, idx int, name string, body []byte, r *htt
 		return 200, buildResp(3, token), nil
 	case "granted_with_mods":
 		return 200, buildResp(1, token), nil
+	case "status_minus1_with_token":
+		return 200, buildResp(-1, token), nil
 	case "trailing":
 		return 200, append(append([]byte{}, resp...), 0, 0, 0), nil
 	}
